@@ -55,7 +55,9 @@ def strategy_c09(draw):
         # evaluations violated by 1e-12 .. 1e-8 do not satisfy a request
         from ..engine import dec as _dec, enc as _enc
         from .c03 import TIGHT
-        sp = _dec(draw(S.problems(dict(TIGHT, callback_prob=0, target_prob=0))))
+        # (x0 exactly on the constraints, or outside by 2^-34 .. 2^-27)
+        sp = _dec(draw(S.problems(dict(TIGHT, callback_prob=0, target_prob=0,
+                                       slacks=[0.0, -2.0 ** -34, -2.0 ** -30, -2.0 ** -27]))))
         sp["options"]["feasibility_tol"] = draw(st.sampled_from([0.0, 0.0, 1e-12, 1e-10]))
         sp["options"]["radius_init"] = draw(st.sampled_from([1e-12, 1e-9, 1e-9, 1e-8]))
         sp["options"].pop("radius_final", None)
@@ -70,6 +72,9 @@ def strategy_c09(draw):
         # the evaluation budget ends exactly at the triggering evaluation (the request must win)
         "tight_budget": draw(st.integers(0, 3)) == 0,
     }
+    if tight and draw(st.booleans()):
+        # a target that every objective value meets: the run must stop at the first *feasible* evaluation
+        plan["fixed_target"] = 2.0 ** 40
     return {"base": base, "plan": plan}
 
 
@@ -180,6 +185,10 @@ def run_case(spec):
                 real["options"]["feasibility_tol"] = tv + 0.5 * (prev - tv)
         else:
             out.label("no-feas-candidate")
+    if plan.get("fixed_target") is not None and not fun_none:
+        real["options"]["target"] = float(plan["fixed_target"])
+        chosen = None
+        out.label("fixed-target")
     out.label("req:" + req, "pos:" + want)
     if plan.get("tight_budget"):
         # maxfev = index of the first evaluation expected to trigger (from the dry run)
